@@ -52,6 +52,11 @@ pub fn run(prop: &str, opts: &Opts) -> Vec<Report> {
 }
 
 pub fn replay(prop: &str, case: &Value) -> ReplayResult {
+    if let Some(h) = case.get("history").and_then(|h| h.as_array()) {
+        if case.get("choices").is_some() {
+            *crate::explore::EXPECTED_HISTORY.lock().unwrap() = Some(h.iter().map(|x| x.as_str().unwrap_or("").to_string()).collect());
+        }
+    }
     match prop {
         "C01" => c01::replay(case),
         "C02" => c02::replay(case),
